@@ -70,7 +70,7 @@ func runSolver(ctx context.Context, sp solverSpec, file string, timeoutS int) *S
 }
 
 // query builds the SMT-LIB text of one obligation.
-func (o *Oblig) query(pre string, relax bool) string {
+func (o *Oblig) query(pre string, relax bool, harness ...bool) string {
 	var b strings.Builder
 	if relax {
 		// quantifier-free relaxation for model finding: universally quantified assumptions are
@@ -92,6 +92,11 @@ func (o *Oblig) query(pre string, relax bool) string {
 		b.WriteString(l)
 		b.WriteByte('\n')
 	}
+	if relax && len(harness) > 0 && harness[0] {
+		for _, ra := range o.ex.replayAssume {
+			fmt.Fprintf(&b, "(assert %s)\n", ra)
+		}
+	}
 	fmt.Fprintf(&b, "(assert (not %s))\n(check-sat)\n", o.Goal)
 	if len(o.Inputs) > 0 {
 		fmt.Fprintf(&b, "(get-value (%s))\n", strings.Join(o.Inputs, " "))
@@ -101,7 +106,11 @@ func (o *Oblig) query(pre string, relax bool) string {
 
 // race runs the solvers concurrently on file; the first decisive answer (sat/unsat) wins unless all is set.
 func race(file string, timeoutS int, all bool, which []solverSpec) *SolveResult {
-	ctx, cancel := context.WithCancel(context.Background())
+	return raceCtx(context.Background(), file, timeoutS, all, which)
+}
+
+func raceCtx(parent context.Context, file string, timeoutS int, all bool, which []solverSpec) *SolveResult {
+	ctx, cancel := context.WithCancel(parent)
 	defer cancel()
 	ch := make(chan *SolveResult, len(which))
 	for _, sp := range which {
@@ -156,17 +165,62 @@ func solveAll(obs []*Oblig, pres map[*Exec][2]string, timeoutS int, workers int,
 				}
 				file := filepath.Join(dir, base+".smt2")
 				os.WriteFile(file, []byte(o.query(pres[o.ex][0], false)), 0o644)
-				r := race(file, timeoutS, all, solvers)
-				if r.Status != "unsat" {
-					// look for a model with exact machine conversions
+				usesConv := o.ex.e.convAx != nil
+				var r *SolveResult
+				if usesConv {
+					// proof variant (axiomatised conversions) and exact/relaxed variant raced
 					file2 := filepath.Join(dir, base+".exact.smt2")
 					os.WriteFile(file2, []byte(o.query(pres[o.ex][1], true)), 0o644)
-					r2 := race(file2, timeoutS, false, []solverSpec{solvers[0], solvers[2]})
-					r.Tried = append(r.Tried, r2.Tried...)
-					if r2.Status == "sat" {
-						r2.Tried = r.Tried
+					c1 := make(chan *SolveResult, 1)
+					c2 := make(chan *SolveResult, 1)
+					ctx, cancel := context.WithCancel(context.Background())
+					go func() { c1 <- raceCtx(ctx, file, timeoutS, all, solvers) }()
+					go func() { c2 <- raceCtx(ctx, file2, timeoutS, false, []solverSpec{solvers[0]}) }()
+					var r1, r2 *SolveResult
+					for r1 == nil || r2 == nil {
+						select {
+						case r1 = <-c1:
+							if r1.Status == "unsat" && !all {
+								cancel()
+							}
+						case r2 = <-c2:
+							if r2.Status == "unsat" && !all {
+								cancel()
+							}
+						}
+					}
+					cancel()
+					r = r1
+					if r1.Status != "unsat" && (r2.Status == "sat" || r2.Status == "unsat") {
+						r2.Tried = append(r1.Tried, r2.Tried...)
 						r2.Solver += "(exact-conv)"
 						r = r2
+					} else {
+						r.Tried = append(r.Tried, r2.Tried...)
+					}
+				} else {
+					r = race(file, timeoutS, all, solvers)
+					if r.Status != "unsat" {
+						file2 := filepath.Join(dir, base+".exact.smt2")
+						os.WriteFile(file2, []byte(o.query(pres[o.ex][1], true)), 0o644)
+						r2 := race(file2, timeoutS, false, []solverSpec{solvers[0], solvers[2]})
+						r.Tried = append(r.Tried, r2.Tried...)
+						if r2.Status == "sat" || r2.Status == "unsat" {
+							r2.Tried = r.Tried
+							r2.Solver += "(relaxed)"
+							r = r2
+						}
+					}
+				}
+				if r.Status == "sat" && len(o.ex.replayAssume) > 0 {
+					// prefer a counterexample inside the domain the replay harness can build
+					file3 := filepath.Join(dir, base+".harness.smt2")
+					os.WriteFile(file3, []byte(o.query(pres[o.ex][1], true, true)), 0o644)
+					r3 := race(file3, timeoutS, false, []solverSpec{solvers[0], solvers[2]})
+					if r3.Status == "sat" {
+						r3.Tried = append(r.Tried, r3.Tried...)
+						r3.Solver += "(harness-domain)"
+						r = r3
 					}
 				}
 				o.Res = r
@@ -178,4 +232,54 @@ func solveAll(obs []*Oblig, pres map[*Exec][2]string, timeoutS int, workers int,
 	}
 	close(ch)
 	wg.Wait()
+}
+
+// coverCheck: vacuity guard. For every distinct (function, reach condition) the assumptions up to the
+// last obligation with that reach condition must be satisfiable together with the reach condition.
+// Returns the names of obligations whose premises are contradictory.
+func coverCheck(obs []*Oblig, pres map[*Exec][2]string, timeoutS int, dir string) (vacuous []string, checked int) {
+	type key struct {
+		ex    *Exec
+		reach string
+	}
+	last := map[key]*Oblig{}
+	for _, o := range obs {
+		k := key{o.ex, o.Reach}
+		if p, ok := last[k]; !ok || o.Cut > p.Cut {
+			last[k] = o
+		}
+	}
+	var list []*Oblig
+	for _, o := range last {
+		list = append(list, o)
+	}
+	var mu sync.Mutex
+	var wg sync.WaitGroup
+	sem := make(chan struct{}, 8)
+	for i, o := range list {
+		wg.Add(1)
+		sem <- struct{}{}
+		go func(i int, o *Oblig) {
+			defer wg.Done()
+			defer func() { <-sem }()
+			var b strings.Builder
+			b.WriteString(pres[o.ex][0])
+			for _, l := range o.ex.e.lines[:o.Cut] {
+				b.WriteString(l)
+				b.WriteByte('\n')
+			}
+			fmt.Fprintf(&b, "(assert %s)\n(check-sat)\n", o.Reach)
+			file := filepath.Join(dir, fmt.Sprintf("cover%d.smt2", i))
+			os.WriteFile(file, []byte(b.String()), 0o644)
+			r := race(file, timeoutS, false, []solverSpec{solvers[0], solvers[1]})
+			mu.Lock()
+			checked++
+			if r.Status == "unsat" {
+				vacuous = append(vacuous, o.Name)
+			}
+			mu.Unlock()
+		}(i, o)
+	}
+	wg.Wait()
+	return
 }
